@@ -51,7 +51,7 @@ for d in sorted(glob.glob("/tmp/out-C*/[1-9]*")):
     farm = res.endswith("farm.json")
     meta = {
         "property": prop, "name": name, "title": title, "files_changed": files,
-        "round": {"1":1,"2":1,"3":1,"4":2,"5":2,"6":2,"7":3,"8":3,"9":4,"10":4}.get(n, 0),
+        "round": {"1":1,"2":1,"3":1,"4":2,"5":2,"6":2,"7":3,"8":3,"9":4,"10":4,"11":5,"12":5}.get(n, 0),
         "needs_to_manifest": needs(notes),
         "rebased": ("patch.diff is the seeder's change re-applied by hand onto /repo's current HEAD after later fix: commits touched the same lines (patch.orig.diff is what the seeder delivered); demo re-confirmed on the rebased patch" if rebased else False),
         "confirmed": {"demo_passes_without_patch": conf.get("demo_without_patch_rc") == 0,
